@@ -9,12 +9,14 @@ import (
 	"math"
 	"sort"
 	"strconv"
+	"strings"
 	"testing"
 
 	xxhash "github.com/cespare/xxhash/v2"
 	"google.golang.org/grpc/balancer"
 	"google.golang.org/grpc/connectivity"
 	iringhash "google.golang.org/grpc/internal/ringhash"
+	"google.golang.org/grpc/metadata"
 	"google.golang.org/grpc/resolver"
 )
 
@@ -25,6 +27,11 @@ import (
 //	    [2, h]              ring.pick(h)
 //	    [3, h, s_0..]       picker.Pick with the xDS request hash h
 //	    [4, h, s_0..]       picker.Pick with a random hash h (header configured, not sent)
+//	    [5, hdr, xdsp, xh, mdp, nv, v_1..v_nv, hj, r, s_0..]
+//	                        picker.Pick, hash source chosen by the real code: header
+//	                        configured (hdr), xDS hash xh in the context (xdsp), outgoing
+//	                        metadata (mdp) with header values "val<v_i>"; hj = xxhash of
+//	                        their join (used by the model only), r = randUint64()
 const vRingHashMaxRing = 8388608
 
 type vRingHashEp struct {
@@ -104,7 +111,18 @@ func vRingHashEndpoint(i int64) resolver.Endpoint {
 	return resolver.Endpoint{Addresses: []resolver.Address{{Addr: "vrh-" + strconv.FormatInt(i, 10)}}}
 }
 
-func vRingHashPick(w *vRingHashWorld, eps []vRingHashEp, minR, maxR int64, random bool, h uint64, ss []int64) (obs []int64) {
+type vRingHashSrc struct {
+	hdr  bool    // requestHashHeader configured
+	xdsp bool    // xDS request hash in the context
+	xh   uint64  // its value
+	mdp  bool    // outgoing metadata present
+	vals []int64 // header value ids
+	r    uint64  // randUint64()
+}
+
+func vRingHashValStr(v int64) string { return "val" + strconv.FormatInt(v, 10) }
+
+func vRingHashPick(w *vRingHashWorld, eps []vRingHashEp, minR, maxR int64, src vRingHashSrc, ss []int64) (obs []int64) {
 	var picks, exits []int64
 	for _, i := range w.idxs {
 		es, _ := w.m.Get(vRingHashEndpoint(i))
@@ -121,10 +139,19 @@ func vRingHashPick(w *vRingHashWorld, eps []vRingHashEp, minR, maxR int64, rando
 	}
 	hdr := ""
 	ctx := context.Background()
-	if random {
+	if src.hdr {
 		hdr = "vrh-hash"
-	} else {
-		ctx = iringhash.SetXDSRequestHash(ctx, h)
+	}
+	if src.xdsp {
+		ctx = iringhash.SetXDSRequestHash(ctx, src.xh)
+	}
+	if src.mdp {
+		md := metadata.MD{}
+		md.Set("vrh-other", "x")
+		for _, v := range src.vals {
+			md.Append("vrh-hash", vRingHashValStr(v))
+		}
+		ctx = metadata.NewOutgoingContext(ctx, md)
 	}
 	b := &ringhashBalancer{
 		endpointStates: w.m,
@@ -132,7 +159,7 @@ func vRingHashPick(w *vRingHashWorld, eps []vRingHashEp, minR, maxR int64, rando
 		ring:           w.ring,
 	}
 	p := b.newPickerLocked()
-	p.randUint64 = func() uint64 { return h }
+	p.randUint64 = func() uint64 { return src.r }
 	code, key := int64(2), int64(-1)
 	func() {
 		defer func() {
@@ -146,6 +173,10 @@ func vRingHashPick(w *vRingHashWorld, eps []vRingHashEp, minR, maxR int64, rando
 			code, key = 0, picks[0]
 		case err == balancer.ErrNoSubConnAvailable && len(picks) == 0:
 			code, key = 1, -1
+		case err != nil && len(picks) == 0:
+			code, key = 2, -1
+		default:
+			code, key = 4, -1
 		}
 	}()
 	obs = []int64{code, key, int64(len(exits))}
@@ -223,13 +254,44 @@ func vRingHashExec(cfg []int64, ops [][]int64) ([][]int64, bool, []string) {
 				obs = append(obs, nil)
 				continue
 			}
-			o := vRingHashPick(w, eps, minR, maxR, op[0] == 4, uint64(op[1]), op[2:])
+			src := vRingHashSrc{hdr: op[0] == 4, xdsp: op[0] == 3, xh: uint64(op[1]), r: uint64(op[1])}
+			o := vRingHashPick(w, eps, minR, maxR, src, op[2:])
 			obs = append(obs, o)
 			walked = true
 			tags[fmt.Sprintf("pick%d-code%d", op[0], o[0])] = true
 			if o[2] > 0 {
 				tags["exitIdle"] = true
 			}
+		case op[0] == 5:
+			// [5, hdr, xdsp, xh, mdp, nv, v.., hj, r, s..]
+			if len(op) < 6 || op[5] < 0 || int64(len(op)) < 6+op[5]+2 {
+				obs = append(obs, nil)
+				continue
+			}
+			nv := int(op[5])
+			rest := op[6+nv:]
+			if w == nil || len(w.ring.items) == 0 {
+				obs = append(obs, nil)
+				continue
+			}
+			src := vRingHashSrc{hdr: op[1] != 0, xdsp: op[2] != 0, xh: uint64(op[3]), mdp: op[4] != 0,
+				vals: op[6 : 6+nv], r: uint64(rest[1])}
+			o := vRingHashPick(w, eps, minR, maxR, src, rest[2:])
+			obs = append(obs, o)
+			walked = true
+			switch {
+			case !src.hdr && !src.xdsp:
+				tags["src-nohash"] = true
+			case !src.hdr:
+				tags["src-xds"] = true
+			case !src.mdp || nv == 0:
+				tags["src-random"] = true
+			case nv > 1:
+				tags["src-header-multi"] = true
+			default:
+				tags["src-header"] = true
+			}
+			tags[fmt.Sprintf("pick5-code%d", o[0])] = true
 		default:
 			obs = append(obs, nil)
 		}
@@ -358,13 +420,26 @@ func vRingHashEmit(r *vRand, p *vRingHashPlan, picksPerBuild int) ([]int64, [][]
 	for _, b := range p.builds {
 		ops = append(ops, vCat([]int64{1}, b))
 		for k := 0; k < picksPerBuild; k++ {
-			switch r.Intn(5) {
+			switch r.Intn(7) {
 			case 0:
 				ops = append(ops, []int64{2, hash()})
 			case 1, 2:
 				ops = append(ops, vCat([]int64{3, hash()}, states(r.Intn(7))))
-			default:
+			case 3, 4:
 				ops = append(ops, vCat([]int64{4, hash()}, states(r.Intn(7))))
+			default:
+				// hash source chosen by the code; header values val<id>, joined by ","
+				nv := r.PickInt(0, 1, 1, 2, 3)
+				vals := make([]int64, nv)
+				strs := make([]string, nv)
+				for i := range vals {
+					vals[i] = r.I64n(1000)
+					strs[i] = vRingHashValStr(vals[i])
+				}
+				hj := int64(xxhash.Sum64String(strings.Join(strs, ",")))
+				hdr, xdsp, mdp := vB(r.Chance(75)), vB(r.Chance(50)), vB(r.Chance(80))
+				ops = append(ops, vCat([]int64{5, hdr, xdsp, hash(), mdp, int64(nv)}, vals,
+					[]int64{hj, hash()}, states(r.Intn(7))))
 			}
 		}
 	}
